@@ -196,7 +196,7 @@ _REQ_INNER_TMPL = \
 def process_request({all_args}):
     {hide_str}
     context = {endpoint}({endpoint_args})
-    if isinstance(context, {response_type}):
+    if {isinstance}(context, {response_type}):
         resp = context
     else:
         resp = {render}({render_args})
@@ -220,6 +220,7 @@ def _create_request_inner(endpoint, render, all_args,
     ep_name = get_free_name('endpoint', taken)
     rn_name = get_free_name('render', taken)
     rt_name = get_free_name('BaseResponse', taken)
+    ii_name = get_free_name('isinstance', taken)
     hide_str = '__traceback_hide__ = True'
     if '__traceback_hide__' in taken:
         hide_str = 'pass'
@@ -229,8 +230,10 @@ def _create_request_inner(endpoint, render, all_args,
                                       endpoint=ep_name,
                                       endpoint_args=ep_args_str,
                                       response_type=rt_name,
+                                      isinstance=ii_name,
                                       render=rn_name,
                                       render_args=rn_args_str)
-    env = {ep_name: endpoint, rn_name: render, rt_name: BaseResponse}
+    env = {ep_name: endpoint, rn_name: render, rt_name: BaseResponse,
+           ii_name: isinstance}
 
     return compile_code(code_str, name='process_request', env=env)
